@@ -157,6 +157,7 @@ struct Model {
 	uint64_t now_ns = 0;
 	// bookkeeping for non-triviality rules
 	std::map<std::string, long> stat;
+	std::set<std::string> gone_paths; // paths that existed and disappeared (remove or owner disconnect)
 
 	Peer &peer(int p) { if ((size_t)p >= peers.size()) peers.resize(p + 1); return peers[p]; }
 	void connect(int p, bool local) { Peer &x = peer(p); x = Peer(); x.alive = true; x.local = local; }
@@ -253,6 +254,7 @@ struct Model {
 			notify_all(tmp, path, it->second, "remove");
 			for (auto &c : tmp.by_conn) for (auto &g : c.second) for (auto &e : g) removes[c.first].push_back(e);
 			elems.erase(it);
+			gone_paths.insert(path);
 			stat["elem_removed_by_disconnect"]++;
 		}
 		for (auto &r : removes) x.by_conn[r.first].push_back(r.second);
@@ -356,7 +358,8 @@ struct Model {
 			for (auto &f : p.fetches) if (f.id.t == fid->t && (fid->is_str() ? f.id.s == fid->s : (long long)f.id.d == (long long)fid->d)) return err("fetch id in use");
 			Rule r = parse_rule(P("path"), cfg.max_matchers);
 			if (!r.valid) return err("bad rule");
-			if (r.ambiguous || r.repeated_ci) { stat["ambiguous_rule"]++; }
+			// statement: a repeated option key is refused or treated as given once; unsettled shapes: refused or lenient
+			if (r.ambiguous || r.repeated_ci) { stat["ambiguous_rule"]++; x.alt_refusal = true; }
 			Fetch f; f.id = *fid; f.rule = r;
 			p.fetches.push_back(f);
 			std::vector<Exp> adds;
@@ -407,6 +410,7 @@ struct Model {
 				else { g = access->get("callGroups"); if (g && !g->is_arr()) return err("callGroups not array"); e.cg = group_names(g, known); }
 			}
 			bool may_refuse = elems.size() >= (1u << (cfg.elem_order - 1));
+			if (gone_paths.count(path->s)) stat["readd_after_gone"]++;
 			elems[path->s] = e;
 			p.owned.push_back(path->s);
 			notify_all(x, path->s, e, "add");
@@ -419,6 +423,7 @@ struct Model {
 			if (it == elems.end() || it->second.owner != pi) { stat["remove_refused"]++; return err("not exists / not owner"); }
 			notify_all(x, path->s, it->second, "remove");
 			elems.erase(it);
+			gone_paths.insert(path->s);
 			for (size_t i = 0; i < p.owned.size(); i++) if (p.owned[i] == path->s) { p.owned.erase(p.owned.begin() + i); break; }
 			respond(x, pi, id, Exp::RESULT, "remove", 3);
 			stat["remove_ok"]++;
